@@ -220,16 +220,16 @@ def generate(ck):
     g = G.Gen()
     rng = ck.rng('gen')
     if ck.quick:
-        G.gen_range_literal(g, 4, ['untyped', 'long'], rng)
-        G.gen_range_literal(g, 4, ['unsigned int', 'objinit', 'cinit', 'int'], rng, sample=14)
-        G.gen_range_literal(g, 3, ['untyped', 'long'], rng, rev=True)
-        G.gen_range_literal(g, 3, ['unsigned int', 'int'], rng, rev=True, sample=10)
+        G.gen_range_literal(g, 3, ['untyped', 'long'], rng)
+        G.gen_range_literal(g, 4, ['untyped', 'long', 'unsigned int', 'objinit', 'cinit', 'int'], rng, sample=10)
+        G.gen_range_literal(g, 3, ['untyped'], rng, rev=True)
+        G.gen_range_literal(g, 4, ['long', 'unsigned int', 'int'], rng, rev=True, sample=9)
     else:
         G.gen_range_literal(g, 8, ['untyped', 'long'], rng)
         G.gen_range_literal(g, 8, ['untyped', 'long'], rng, rev=True)
         G.gen_range_literal(g, 5, ['objinit', 'cinit', 'int', 'unsigned int', 'Py_ssize_t', 'signed char', 'size_t', 'object'], rng)
         G.gen_range_literal(g, 5, ['unsigned int', 'int', 'cinit', 'size_t', 'signed char'], rng, rev=True)
-    G.gen_range_typebounds(g, list(G.CTYPES), rng, ck.pick(32, 400))
+    G.gen_range_typebounds(g, list(G.CTYPES), rng, ck.pick(16, 400))
     ctypes = list(G.CTYPES)
     steps_q = ['n1', 'n2', -3, -2, -1, 1, 2, 3]
     steps_t = ['n1', 'n2', -7, -4, -3, -2, -1, 0, 1, 2, 3, 4, 7]
